@@ -51,6 +51,15 @@ class Gen:
         self.counter += 1
         return "%s%d" % (prefix, self.counter)
 
+    def fresh_named(self, prefix, tns):
+        """A simple name for a new named type in namespace tns: now and then the simple name of an existing type of another namespace."""
+        if self.use_ns and self.r.random() < 0.12:
+            cands = [d["full"].rsplit(".", 1)[-1] for d in self.defs.values() if d["ns"] != tns]
+            cands = [s for s in cands if self.full(tns, s) not in self.defs and not s.startswith("Al")]
+            if cands:
+                return self.r.choice(cands)
+        return self.fresh(prefix)
+
     def pick_ns(self, enclosing):
         if not self.use_ns:
             return ""
@@ -93,7 +102,7 @@ class Gen:
             return {"k": "ref", "full": r.choice(refs)}
         if k == "enum":
             tns = self.pick_ns(ns)
-            full = self.full(tns, self.fresh("E"))
+            full = self.full(tns, self.fresh_named("E", tns))
             syms = r.sample(SYMS, r.randint(1, 4))
             d = {"k": "enum", "full": full, "ns": tns, "syms": syms, "hasdef": r.random() < 0.3, "aliases": self.mk_aliases()}
             d["default"] = r.choice(syms)
@@ -101,7 +110,7 @@ class Gen:
             return d
         if k == "fixed":
             tns = self.pick_ns(ns)
-            full = self.full(tns, self.fresh("F"))
+            full = self.full(tns, self.fresh_named("F", tns))
             d = {"k": "fixed", "full": full, "ns": tns, "size": r.choice([0, 1, 2, 3, 16]), "aliases": self.mk_aliases()}
             if self.logical and r.random() < 0.4 and d["size"] > 0:
                 self.add_decimal(d, d["size"])
@@ -115,7 +124,7 @@ class Gen:
             return self.union(depth, ns)
         if k == "record":
             tns = self.pick_ns(ns)
-            full = self.full(tns, self.fresh("R"))
+            full = self.full(tns, self.fresh_named("R", tns))
             d = {"k": "record", "full": full, "ns": tns, "fields": [], "aliases": self.mk_aliases()}
             self.defs[full] = d
             self.open.append(full)
@@ -180,7 +189,7 @@ class Gen:
             prec = r.randint(1, maxp)
         d["lt"] = "decimal"
         d["prec"] = prec
-        d["scale"] = r.choice([0, 0, 1, 2, prec]) if prec >= 2 else r.choice([0, 1])
+        d["scale"] = r.choice([0, 0, 1, 2, prec, prec]) if prec >= 2 else r.choice([0, 1, 1])
         d["scale"] = min(d["scale"], prec)
 
     def union(self, depth, ns):
